@@ -332,7 +332,7 @@ func (e *BinaryOpExpr) execStringIn(kv KVPair, ctx *ExecuteCtx) (any, error) {
 			}
 		}
 		return false, nil
-	case *FunctionCallExpr:
+	case *FunctionCallExpr, *FieldReferenceExpr:
 		if rlist.ReturnType() != TLIST {
 			return false, NewExecuteError(rlist.GetPos(), "in operator right expression has wrong type, not list 1")
 		}
@@ -341,6 +341,10 @@ func (e *BinaryOpExpr) execStringIn(kv KVPair, ctx *ExecuteCtx) (any, error) {
 			return false, err
 		}
 		vals, ok := fret.([]any)
+		if !ok {
+			// typed lists as returned by split, list, int_list and float_list
+			vals, ok = unpackArray(fret)
+		}
 		if !ok {
 			return false, NewExecuteError(rlist.GetPos(), "in operator right expression has wrong type, not list 2")
 		}
@@ -382,7 +386,7 @@ func (e *BinaryOpExpr) execNumberIn(kv KVPair, ctx *ExecuteCtx) (any, error) {
 			}
 		}
 		return false, nil
-	case *FunctionCallExpr:
+	case *FunctionCallExpr, *FieldReferenceExpr:
 		if rlist.ReturnType() != TLIST {
 			return false, NewExecuteError(rlist.GetPos(), "in operator right expression has wrong type, not list")
 		}
@@ -391,6 +395,10 @@ func (e *BinaryOpExpr) execNumberIn(kv KVPair, ctx *ExecuteCtx) (any, error) {
 			return false, err
 		}
 		vals, ok := fret.([]any)
+		if !ok {
+			// typed lists as returned by split, list, int_list and float_list
+			vals, ok = unpackArray(fret)
+		}
 		if !ok {
 			return false, NewExecuteError(rlist.GetPos(), "in operator right expression has wrong type, not list")
 		}
@@ -619,6 +627,24 @@ func (e *FieldAccessExpr) execListAccess(idx int, left any) (any, error) {
 	)
 	switch lval := left.(type) {
 	case []any:
+		lvallen := len(lval)
+		if idx < lvallen {
+			have = true
+			fval = lval[idx]
+		}
+	case []string:
+		lvallen := len(lval)
+		if idx < lvallen {
+			have = true
+			fval = lval[idx]
+		}
+	case []int64:
+		lvallen := len(lval)
+		if idx < lvallen {
+			have = true
+			fval = lval[idx]
+		}
+	case []float64:
 		lvallen := len(lval)
 		if idx < lvallen {
 			have = true
